@@ -116,32 +116,130 @@ def make_cells(E, sc, tag='old'):
 
 
 def install_cpu(E):
-    """environment for the runtime dispatcher: CPU features are two arbitrary booleans fixed for the process; the cache cell
-    holds an arbitrary element of the invariant set {0, d}. Obligations are recorded in E.cpu."""
-    cpu = {'avx2': E.new_flag('cpu_avx2'), 'sse42': E.new_flag('cpu_sse42'), 'cached': E.new_flag('cell_already_set'), 'stores': [], 'bad': []}
+    """Environment of the runtime dispatcher (C13 thread timing, C01/C12 dispatch safety).
+    CPU features are two arbitrary booleans fixed for the process.  The shared cache cell is modelled for ALL interleavings
+    of any number of threads running the same code: before every atomic operation the environment may have set the cell to
+    any value of the reachable set R = {initial 0} + {every value any path of the dispatch code can store}, computed as a
+    fixpoint by exploring the dispatcher with loads from the current R.  Once this thread has stored or seen a non-initial
+    value, the initial value is excluded unless the code itself stores it."""
+    cpu = {'avx2': E.new_flag('cpu_avx2'), 'sse42': E.new_flag('cpu_sse42'), 'stores': [], 'bad': [], 'kind': None, 'noninit': False, 'R': None, 'nsched': 0}
     E.cpu = cpu
 
+    def kind():
+        if cpu['kind'] is None:
+            a = E.branch_bool(cpu['avx2']); s2 = E.branch_bool(cpu['sse42'])
+            cpu['kind'] = (a, s2)
+        return cpu['kind']
+
     def feature(path):
-        if 'avx2' in path: return cpu['avx2']
-        if 'sse4.2' in path or 'sse42' in path or 'sse4_2' in path: return cpu['sse42']
+        k = kind()
+        if 'avx2' in path: return BoolV(k[0])
+        if 'sse4.2' in path or 'sse42' in path or 'sse4_2' in path: return BoolV(k[1])
         raise Unsupported('cpu feature ' + path)
 
-    def d_value():
-        a = E.branch_bool(cpu['avx2'])
-        if a: return 1
-        return 2 if E.branch_bool(cpu['sse42']) else 3
+    def reach():
+        if cpu['R'] is None:
+            cpu['R'] = cell_reachable(E, kind())
+        return cpu['R']
 
-    def load(a):
-        if E.branch_bool(cpu['cached']): return IntV(8, d_value())
-        return IntV(8, 0)
+    def env_value():
+        """the cell as this thread finds it now: any reachable value (scheduling choice)"""
+        R = reach()
+        vals = [v for v in R if not (cpu['noninit'] and v == 0 and 0 not in R[1:])] or R
+        if len(vals) == 1: v = vals[0]
+        else:
+            cpu['nsched'] += 1
+            sv = E.new_var((1 << len(vals)) - 1, 'sched%d' % cpu['nsched'])
+            v = vals[E.concretize(IntV(8, sym.var_node(sv)), 0, len(vals) - 1).v]
+        if v != 0: cpu['noninit'] = True
+        return v
 
-    def store(a):
-        v = a[1]
-        cpu['stores'].append(v)
-        if not v.conc() or v.v != d_value(): cpu['bad'].append(f'RUNTIME_FEATURE.store({v}) differs from the detected feature')
-    E.hooks['feature'] = feature; E.hooks['atomic_load'] = load; E.hooks['atomic_store'] = store
+    def did_store(val):
+        if not val.conc(): raise Unsupported('symbolic value stored into the runtime feature cell')
+        cpu['stores'].append(val.v); cpu['noninit'] = True
+
+    def load(a): return IntV(8, env_value())
+
+    def store(a): did_store(a[1])
+
+    def rmw(path, a):
+        cur = env_value(); name = path.split('::')[-1]
+        if name.startswith('compare_exchange'):
+            exp, new = a[1], a[2]
+            if not exp.conc(): raise Unsupported('symbolic compare_exchange operand')
+            if cur == exp.v:
+                did_store(new); return EnumV('Result', 'Ok', 0, [IntV(8, cur)])
+            return EnumV('Result', 'Err', 1, [IntV(8, cur)])
+        new = {'swap': lambda: a[1].v, 'fetch_or': lambda: cur | a[1].v, 'fetch_and': lambda: cur & a[1].v, 'fetch_max': lambda: max(cur, a[1].v),
+               'fetch_min': lambda: min(cur, a[1].v), 'fetch_add': lambda: (cur + a[1].v) & 255, 'fetch_sub': lambda: (cur - a[1].v) & 255,
+               'fetch_xor': lambda: cur ^ a[1].v}.get(name)
+        if new is None: raise Unsupported('atomic operation ' + path)
+        did_store(IntV(8, new())); return IntV(8, cur)
+    E.hooks['feature'] = feature; E.hooks['atomic_load'] = load; E.hooks['atomic_store'] = store; E.hooks['atomic_rmw'] = rmw
     return cpu
 
+
+def cell_reachable(E, kind):
+    """fixpoint of the values the dispatch code can leave in its cache cell on a CPU of this kind; cached per program"""
+    cache = E.P.__dict__.setdefault('_cell_reach', {})
+    if kind in cache: return cache[kind]
+    entries = [f for n, f in E.funcs.items() if n.startswith('runtime::match_')]
+    if not entries: raise Unsupported('no runtime dispatcher in this build')
+    R = [0]
+    for _ in range(8):
+        stores = set()
+        saved_hooks = dict(E.hooks); saved_cpu = getattr(E, 'cpu', None)
+
+        def thunk_for(f):
+            def thunk():
+                st = {'noninit': False, 'n': 0}
+
+                def envv():
+                    vals = [v for v in R if not (st['noninit'] and v == 0 and 0 not in R[1:])] or R
+                    if len(vals) == 1: v = vals[0]
+                    else:
+                        st['n'] += 1
+                        sv = E.new_var((1 << len(vals)) - 1, 'fsched')
+                        v = vals[E.concretize(IntV(8, sym.var_node(sv)), 0, len(vals) - 1).v]
+                    if v != 0: st['noninit'] = True
+                    return v
+
+                def ds(val):
+                    if not val.conc(): raise Unsupported('symbolic value stored into the runtime feature cell')
+                    stores.add(val.v); st['noninit'] = True
+                E.hooks['feature'] = lambda path: BoolV(kind[0]) if 'avx2' in path else BoolV(kind[1])
+                E.hooks['atomic_load'] = lambda a: IntV(8, envv())
+                E.hooks['atomic_store'] = lambda a: ds(a[1])
+
+                def rmw(path, a):
+                    cur = envv(); name = path.split('::')[-1]
+                    if name.startswith('compare_exchange'):
+                        if cur == a[1].v: ds(a[2]); return EnumV('Result', 'Ok', 0, [IntV(8, cur)])
+                        return EnumV('Result', 'Err', 1, [IntV(8, cur)])
+                    if name == 'swap': ds(a[1]); return IntV(8, cur)
+                    if name.startswith('fetch_'):
+                        op = {'fetch_or': cur | a[1].v, 'fetch_and': cur & a[1].v, 'fetch_max': max(cur, a[1].v), 'fetch_min': min(cur, a[1].v),
+                              'fetch_add': (cur + a[1].v) & 255, 'fetch_sub': (cur - a[1].v) & 255, 'fetch_xor': cur ^ a[1].v}.get(name)
+                        if op is None: raise Unsupported('atomic operation ' + path)
+                        ds(IntV(8, op)); return IntV(8, cur)
+                    raise Unsupported('atomic operation ' + path)
+                E.hooks['atomic_rmw'] = rmw
+                bv = E.call_func(E.by_method[(None, 'Bytes', 'new')], [Ref([], (0,), 0, 'buf')]); box = [bv]
+                try:
+                    E.call_func(f, [Ref(box, (0,), None, 'local')])
+                except Panic:
+                    pass       # failures are reported by the real runs, not by the reachability pre-pass
+                return None
+            return thunk
+        try:
+            for f in entries: E.subexplore(thunk_for(f))
+        finally:
+            E.hooks.clear(); E.hooks.update(saved_hooks)
+        newR = sorted(set(R) | stores)
+        if newR == sorted(R): break
+        R = [0] + [v for v in newR if v != 0]
+    cache[kind] = R
+    return R
 
 
 class Obs:
